@@ -729,18 +729,29 @@ def r02_1(cx):
     cx.floor('R02.1', 'calls of try_find_fwd_imp', len(calls), 3)
 
 
-def r14_1(cx):
+def _is_match_shape(cx):
+    """AhoCorasick::is_match(input) = self.try_find(input.earliest(true)).expect(..).is_some(), in any spelling"""
+    from acverif.sym import is_some_of, cstr, canon
     b = cx.body('ahocorasick::AhoCorasick::is_match')
-    t = b.local_term(0, expand=True)
-    ok = False
-    if is_call(t, r'Option::is_some$'):
-        x = t[2][0]
-        if is_call(x, r'Result::(expect|unwrap)$'):
-            x = x[2][0]
-            if is_call(x, r'AhoCorasick::try_find$|Automaton::try_find$'):
-                a = peel(x[2][1])
-                ok = is_call(a, r'Input::earliest$') and a[2][1] == ('c', 1) and is_var(peel(a[2][0]), 'input')
-    cx.report('R14.1', b, 'is_match', ok, 'is_match = try_find(input.earliest(true)).is_some()' if ok else 'is_match = %s' % tstr(t, 200))
+    X = is_some_of(cx.facts, b)
+    if X is None:
+        return b, 'is_match is not `<something>.is_some()`'
+    # X = payload of the Ok of try_find(...) (expect / unwrap unfolds to the Ok payload)
+    x = X
+    if not (x[0] == 'f' and x[1][0] == 'dc' and x[1][2] == 'Ok' and is_call(x[1][1], r'^ahocorasick::AhoCorasick::try_find$')):
+        return b, 'is_match asks %s, expected self.try_find(..) unwrapped' % tstr(x, 160)
+    call = x[1][1]
+    if cstr(call[2][0]) != cstr(param_at(b, 1)):
+        return b, 'try_find is not called on self'
+    a = call[2][1]
+    if not (is_call(a, r'Input::earliest$') and a[2][1] == ('c', 1) and cstr(a[2][0]) == cstr(param_at(b, 2))):
+        return b, 'try_find receives %s, expected input.earliest(true)' % tstr(a, 120)
+    return b, None
+
+
+def r14_1(cx):
+    b, why = _is_match_shape(cx)
+    cx.report('R14.1', b, 'is_match', why is None, 'is_match = try_find(input.earliest(true)).is_some()' if why is None else why)
     e = cx.body("util::search::Input::<'h>::earliest")
     st = [(tt, val) for bi, si, tt, val, s in e.field_stores()]
     cs = [e.call_term(bi, t) for bi, t in e.calls()]
